@@ -99,6 +99,22 @@ fn check_inner(sub: &str, g: &G, toks: &[char], l: &mut Local) -> CaseRes {
         let (sig, msg) = first.unwrap();
         return fail(case, &sig, msg);
     }
+    // the zero-sized error type (its own fast paths in the error bookkeeping): as many errors as the surviving path emitted
+    {
+        let pe = build::<&str, chumsky::error::EmptyErr>(g, false);
+        let (oe, ce) = (run_parse(&pe, s), run_check(&pe, s));
+        l.evals += 2;
+        if oe.panic.is_none() && ce.panic.is_none() {
+            for (what, x) in [("parse", &oe), ("check", &ce)] {
+                if x.has_output != o.has_output || (o.has_output && x.errs.len() != o.errs.len()) {
+                    return fail(case, "C05/zero-sized-error-count", format!("{}() with EmptyErr: has_output={} with {} errors; with Rich: has_output={} with {} errors {:?}", what, x.has_output, x.errs.len(), o.has_output, o.errs.len(), o.errs));
+                }
+            }
+            l.bump("zero_sized_error_type_runs");
+        } else {
+            l.bump("panics_left_to_C20");
+        }
+    }
     // check mode must report the same list
     if c.has_output != o.has_output || (o.has_output && c.errs != o.errs) {
         return fail(case, "C05/check-differs", format!("check() reports {:?} but parse() reports {:?}", c.errs, o.errs));
